@@ -178,6 +178,7 @@ var scenarios = []scenario{
 	{"reads", scReads},
 	{"crash-points", scCrashPoints},
 	{"flow", scFlow},
+	{"big-joint", scBigJoint},
 }
 
 // an old leader is cut off (alone or with a minority) and keeps acting while
@@ -226,6 +227,9 @@ func scStaleLeader(d *Driver) {
 	d.isolate(group)
 	p := calm
 	p.Tick, p.Propose, p.Read, p.Dup, p.Campaign = 30, 6, 4, 3, 1
+	if pct(d.r, 50) {
+		p.Unreach, p.RepSnap = 10, 3 // the transport reports the peers it cannot reach
+	}
 	d.with(p, 80+d.r.Intn(120))
 	if !stalled && pct(d.r, 50) {
 		if n := d.c.up(l.ID); n != nil {
@@ -839,3 +843,61 @@ func scFlow(d *Driver) {
 func contains(m map[uint64]struct{}, id uint64) bool { _, ok := m[id]; return ok }
 
 func sortU(x []uint64) []uint64 { sort.Slice(x, func(i, j int) bool { return x[i] < x[j] }); return x }
+
+// a large group (more than seven tracked peers) that replaces several voters at once through a
+// joint configuration and sees elections, proposals and reads while it is joint
+func scBigJoint(d *Driver) {
+	l := d.elect(400)
+	if l == nil {
+		return
+	}
+	d.propose(l, 1+d.r.Intn(2), false)
+	d.settle(40)
+	st, perr := safeState(l.RN)
+	if perr != "" {
+		return
+	}
+	voters := st.ConfState.GetVoters()
+	learners := st.ConfState.GetLearners()
+	if len(voters) >= 4 && len(learners) >= 2 {
+		// promote two learners, remove two voters (not the leader), staying joint until told to leave
+		var out []uint64
+		for _, v := range voters {
+			if v != l.ID && len(out) < 2 {
+				out = append(out, v)
+			}
+		}
+		trans := []string{"explicit", "implicit", "auto"}[d.r.Intn(3)]
+		cc := fmt.Sprintf("%s:v%d v%d r%d r%d", trans, learners[0], learners[1], out[0], out[1])
+		if pct(d.r, 30) {
+			cc = fmt.Sprintf("%s:v%d v%d l%d l%d", trans, learners[0], learners[1], out[0], out[1])
+		}
+		if d.c.Do(Step{Act: "ProposeConfChange", Node: l.ID, Pid: d.nextPid, CC: cc}) {
+			d.nextPid++
+		}
+	}
+	d.settle(60 + d.r.Intn(60))
+	p := calm
+	p.Tick, p.Propose, p.Read, p.Campaign, p.Dup = 12, 5, 3, 2, 3
+	for round := 0; round < 2+d.r.Intn(3); round++ {
+		if pct(d.r, 60) {
+			ups := d.upNodes()
+			c := ups[d.r.Intn(len(ups))]
+			d.c.Do(Step{Act: "Campaign", Node: c.ID})
+		}
+		if pct(d.r, 30) {
+			d.isolate([]uint64{d.pick(d.c.IDs)})
+		}
+		d.with(p, 40+d.r.Intn(60))
+		d.heal()
+		if ld := d.leader(); ld != nil {
+			d.propose(ld, 1+d.r.Intn(2), false)
+			if pct(d.r, 30) {
+				if d.c.Do(Step{Act: "ProposeConfChange", Node: ld.ID, Pid: d.nextPid, CC: "leave"}) {
+					d.nextPid++
+				}
+			}
+		}
+	}
+	d.settle(120)
+}
